@@ -398,6 +398,14 @@ fn integer_to_binary(
     vars
 }
 
+/// Parses a 1-based index of the file into a 0-based one. `0` is not an index: it is refused like
+/// any other malformed number instead of wrapping around (or panicking in builds with overflow
+/// checks).
+fn parse_index(s: &str) -> Result<usize, ParseErrorReason> {
+    let index: std::num::NonZeroUsize = s.parse()?;
+    Ok(index.get() - 1)
+}
+
 struct FileCursor<T: Iterator<Item = String>> {
     inner: T,
     line_num: usize,
@@ -504,7 +512,7 @@ where
         ParseErrorReason: From<E>,
     {
         self.consume_map(2, |parts| {
-            let key = parts[0].parse::<usize>()? - 1;
+            let key = parse_index(&parts[0])?;
             let val: V = parts[1].parse()?;
             Ok((key, val))
         })
@@ -516,10 +524,7 @@ where
     /// to be 0-indexed.
     fn collect_ij_val(&mut self) -> Result<HashMap<(usize, usize), f64>> {
         self.consume_map(3, |parts| {
-            let key = (
-                parts[0].parse::<usize>()? - 1,
-                parts[1].parse::<usize>()? - 1,
-            );
+            let key = (parse_index(&parts[0])?, parse_index(&parts[1])?);
             let val = parts[2].parse()?;
             Ok((key, val))
         })
@@ -550,7 +555,9 @@ where
                 return Err(QplibParseError::invalid_line(self.line_num).into());
             }
             let (m, key, val) = f(parts).map_err(|e| e.with_line(self.line_num))?;
-            out[m].insert(key, val);
+            out.get_mut(m)
+                .ok_or(QplibParseError::invalid_line(self.line_num))?
+                .insert(key, val);
         }
         Ok(out)
     }
@@ -561,8 +568,8 @@ where
     /// 0-indexed.
     fn collect_list_of_i_val(&mut self, size: usize) -> Result<Vec<HashMap<usize, f64>>> {
         self.consume_list_of_maps(size, 3, |parts| {
-            let m = parts[0].parse::<usize>()? - 1;
-            let key = parts[1].parse::<usize>()? - 1;
+            let m = parse_index(&parts[0])?;
+            let key = parse_index(&parts[1])?;
             let val = parts[2].parse()?;
             Ok((m, key, val))
         })
@@ -574,11 +581,8 @@ where
     /// 0-indexed.
     fn collect_list_of_ij_val(&mut self, size: usize) -> Result<Vec<HashMap<(usize, usize), f64>>> {
         self.consume_list_of_maps(size, 4, |parts| {
-            let m = parts[0].parse::<usize>()? - 1;
-            let key = (
-                parts[1].parse::<usize>()? - 1,
-                parts[2].parse::<usize>()? - 1,
-            );
+            let m = parse_index(&parts[0])?;
+            let key = (parse_index(&parts[1])?, parse_index(&parts[2])?);
             let val = parts[3].parse()?;
             Ok((m, key, val))
         })
@@ -605,11 +609,10 @@ where
             if parts.len() < 2 {
                 return Err(QplibParseError::invalid_line(self.line_num).into());
             }
-            let (i, val): (usize, V) = (
-                self.parse_or_err_with_line(&parts[0])?,
-                self.parse_or_err_with_line(&parts[1])?,
-            );
-            out[i - 1] = val;
+            let i = parse_index(&parts[0]).map_err(|e| e.with_line(self.line_num))?;
+            let val: V = self.parse_or_err_with_line(&parts[1])?;
+            *out.get_mut(i)
+                .ok_or(QplibParseError::invalid_line(self.line_num))? = val;
         }
         Ok(out)
     }
